@@ -76,8 +76,8 @@ impl<const N: usize> Ex<N> {
         out.nontrivial = true;
         out.may_alloc = true;
         let k = st.vals.len();
-        out.argclass = if k < N { 0 } else if k == N { 1 } else { 2 } + 3 * (st.b as u64 % 3);
-        let it = SrcIter::new(&st.vals, st.b % 3);
+        out.argclass = if k < N { 0 } else if k == N { 1 } else { 2 } + 3 * (st.b as u64 % 4);
+        let it = SrcIter::new(&st.vals, [0, 1, 2, 3][st.b % 4]);
         let made = it.made.clone();
         let r = window(move || it.collect::<Buf<N>>());
         self.allocs += crate::alloc::take_op_allocs();
@@ -211,7 +211,14 @@ impl<const N: usize> Ex<N> {
         let b = self.bufs[x].as_ref().unwrap();
         let r = window(|| -> bool {
             match form {
-                0 => **b == plain[..],
+                0 => {
+                    let e = **b == plain[..];
+                    // `!=` must be the negation (an explicit `ne` could disagree)
+                    if (**b != plain[..]) == e {
+                        return !want;
+                    }
+                    e
+                }
                 1 => **b == &plain[..],
                 2 => **b == &mut plain[..],
                 _ => {
